@@ -14,11 +14,14 @@ package cluster
 // A dead child is the crash the property forbids.
 
 import (
+	"crypto/tls"
+
 	"bufio"
 	"bytes"
 	"encoding/binary"
 	"encoding/hex"
 	"fmt"
+	"github.com/rqlite/rqlite/v10/testdata/x509"
 	"io"
 	"math/rand"
 	"net"
@@ -58,7 +61,12 @@ func TestVerif_C35_NodeChild(t *testing.T) {
 		fmt.Println("ERR", err)
 		os.Exit(3)
 	}
-	mux, err := tcp.NewMux(ln, nil)
+	var mux *tcp.Mux
+	if os.Getenv("VERIF_C35_CHILD_TLS") != "" {
+		mux, err = tcp.NewTLSMux(ln, nil, x509.CertExampleDotComFile(""), x509.KeyExampleDotComFile(""))
+	} else {
+		mux, err = tcp.NewMux(ln, nil)
+	}
 	if err != nil {
 		fmt.Println("ERR", err)
 		os.Exit(3)
@@ -118,15 +126,18 @@ func (w c35LimitedWriter) Write(p []byte) (int, error) {
 	return len(p), nil
 }
 
-func c35StartNode() (*c35Node, error) {
+func c35StartNode(useTLS bool) (*c35Node, error) {
 	self := os.Getenv("VERIF_SELF")
 	if self == "" {
 		self = os.Args[0]
 	}
 	cmd := exec.Command(self, "-test.run", "^TestVerif_C35_NodeChild$", "-test.timeout", "0")
 	env := []string{"VERIF_C35_CHILD=1"}
+	if useTLS {
+		env = append(env, "VERIF_C35_CHILD_TLS=1")
+	}
 	for _, e := range os.Environ() {
-		if !strings.HasPrefix(e, "VERIF_STATS_DIR=") && !strings.HasPrefix(e, "VERIF_C35_CHILD=") {
+		if !strings.HasPrefix(e, "VERIF_STATS_DIR=") && !strings.HasPrefix(e, "VERIF_C35_CHILD") {
 			env = append(env, e)
 		}
 	}
@@ -212,6 +223,24 @@ func (n *c35Node) stat() (alloc uint64, calls []string, ok bool) {
 
 // c35Send writes header+stream on a new connection, half-closes and reads
 // everything until the node closes the connection.
+// c35SendTLS does what c35Send does inside a TLS session (well-behaved
+// handshake, then the hostile bytes as application data).
+func c35SendTLS(addr string, data []byte) ([]byte, error) {
+	raw, err := c35Dial(addr)
+	if err != nil {
+		return nil, err
+	}
+	defer raw.Close()
+	c := tls.Client(raw, &tls.Config{InsecureSkipVerify: true})
+	c.SetDeadline(time.Now().Add(60 * time.Second))
+	if _, err := c.Write(data); err != nil {
+		return nil, nil
+	}
+	c.CloseWrite()
+	out, _ := io.ReadAll(io.LimitReader(c, 8<<20))
+	return out, nil
+}
+
 func c35Send(addr string, data []byte) ([]byte, error) {
 	conn, err := c35Dial(addr)
 	if err != nil {
@@ -228,10 +257,14 @@ func c35Send(addr string, data []byte) ([]byte, error) {
 }
 
 // c35Probe checks that the node still answers a well-formed GET_NODE_META.
-func c35Probe(addr string) error {
+func c35Probe(addr string, useTLS bool) error {
 	p, _ := pb.Marshal(&proto.Command{Type: proto.Command_COMMAND_TYPE_GET_NODE_META})
 	msg := append([]byte{MuxClusterHeader}, c35Frame(uint64(len(p)), p)...)
-	out, err := c35Send(addr, msg)
+	send := c35Send
+	if useTLS {
+		send = c35SendTLS
+	}
+	out, err := send(addr, msg)
 	if err != nil {
 		return err
 	}
@@ -255,13 +288,33 @@ func c35Probe(addr string) error {
 func TestVerif_C35_Node(t *testing.T) {
 	rec := vstat.New(t, "C35", "node",
 		"same stream grammar as unit frames but declared frame lengths over the full range (2^10..2^63 +-1, 2^64-1-k) and a generated mux header byte (75% the cluster header 2, else any other byte incl. the Raft header 1, which is not registered here); each stream is sent on its own TCP connection to a child-process node (tcp.Mux + cluster.Service, RLIMIT_AS-limited). Oracle: child alive and answering GET_NODE_META after the stream; child heap-allocation growth <= 4 x bytes sent + 3 MiB per possible frame; no mutating fake method without the valid password; nothing at all reaches the service behind a wrong mux header. non-trivial = wrong mux header, or a declared length >= 2^31, or a segment that is not a plain well-formed frame; distinct by header+stream bytes")
+	c35NodeBody(t, rec, false)
+}
+
+// TestVerif_C35_NodeTLS: the same against a child whose inter-node port is a
+// TLS mux (tcp.NewTLSMux). Each stream travels either raw (optionally behind
+// bytes shaped like a TLS record / SSLv2 hello / plaintext protocol: nothing
+// of it may reach the cluster service) or inside a real TLS session (then the
+// oracle of unit node applies unchanged). Liveness is probed over TLS.
+func TestVerif_C35_NodeTLS(t *testing.T) {
+	rec := vstat.New(t, "C35", "node-tls",
+		"as unit node, child node with a TLS mux; transport per case {raw bytes on the TLS port, TLS-record/SSLv2/plaintext-shaped prefix + stream, real TLS session carrying mux header + stream}; oracle: child alive and answering GET_NODE_META over TLS, allocation bound, no mutating call without the valid password, and nothing reaches the service unless a TLS session was established; non-trivial as unit node or raw transport; distinct by transport+bytes")
+	c35NodeBody(t, rec, true)
+}
+
+var c35TLSPrefixes = [][]byte{
+	nil, {0x16, 0x03, 0x01, 0xff, 0xff}, {0x16, 0x03, 0x03, 0x40, 0x01}, {0x80, 0x2e, 0x01, 0x03, 0x01}, {0x81, 0xff, 0x01},
+	{0x15, 0x03, 0x03, 0x00, 0x02, 0x02, 0x28}, {0x16, 0x03, 0x01, 0x00, 0x00}, {0x17, 0x03, 0x03, 0xff, 0xff}, {0x16, 0x03, 0x01},
+}
+
+func c35NodeBody(t *testing.T, rec *vstat.Rec, useTLS bool) {
 	var node *c35Node
 	defer func() { node.stop() }()
 	var maxPerFrame uint64
 	rapid.Check(t, func(rt *rapid.T) {
 		if node == nil || !node.alive() {
 			var err error
-			if node, err = c35StartNode(); err != nil {
+			if node, err = c35StartNode(useTLS); err != nil {
 				node = nil
 				rec.Label("inconclusive:infrastructure")
 				return
@@ -298,6 +351,17 @@ func TestVerif_C35_Node(t *testing.T) {
 			rec.Label("declared<=sent")
 		}
 		wire := append([]byte{header}, in...)
+		rawOnTLS := false
+		if useTLS && rapid.IntRange(0, 2).Draw(rt, "raw-on-tls-port") > 0 {
+			// not a TLS session: optional record-shaped prefix, then the stream
+			rawOnTLS = true
+			pre := c35TLSPrefixes[rapid.IntRange(0, len(c35TLSPrefixes)-1).Draw(rt, "tls-prefix")]
+			wire = append(append([]byte(nil), pre...), wire...)
+			rec.Label("transport:raw-on-tls-port")
+			nontrivial = true
+		} else if useTLS {
+			rec.Label("transport:tls-session")
+		}
 		rec.Case(nontrivial, hex.EncodeToString(wire))
 		desc := fmt.Sprintf("mux-header=%d stream=[%s] bytes(%d)=%s", header, s.kinds(), len(in), hex.EncodeToString(in))
 		rec.Sample(desc)
@@ -309,11 +373,16 @@ func TestVerif_C35_Node(t *testing.T) {
 			rec.Label("inconclusive:infrastructure")
 			return
 		}
-		_, serr := c35Send(node.addr, wire)
+		var serr error
+		if useTLS && !rawOnTLS {
+			_, serr = c35SendTLS(node.addr, wire)
+		} else {
+			_, serr = c35Send(node.addr, wire)
+		}
 		a1, got, ok := node.stat()
 		var perr error
 		if ok {
-			perr = c35Probe(node.addr)
+			perr = c35Probe(node.addr, useTLS)
 		}
 		if !ok || perr != nil {
 			// give a dying child a moment to be reaped so that stderr is complete
@@ -363,6 +432,14 @@ func TestVerif_C35_Node(t *testing.T) {
 		if per := alloc / uint64(nFrames+1); per > maxPerFrame {
 			maxPerFrame = per
 			rec.Extra("max_alloc_per_frame_in_passing_cases", per)
+		}
+		if rawOnTLS && len(got) > 0 {
+			sig := "C35/tls-port-serves-plaintext"
+			what := fmt.Sprintf("bytes sent without a TLS session reached the cluster service: %v", got)
+			if rec.KnownHit(sig, what) {
+				return
+			}
+			rt.Fatalf("%s", rec.Violation(sig, "%s :: %s", what, desc))
 		}
 		if header != MuxClusterHeader && len(got) > 0 {
 			sig := "C35/wrong-mux-header-reaches-service"
